@@ -12,3 +12,29 @@ ASSUMPTIONS = [
 def info(explanation, extra=None, assumptions=None, level="other"):
     return {"explanation": explanation, "assumptions": ASSUMPTIONS + (assumptions or []), "extra": extra or {},
             "level": level}
+
+
+class Only(object):
+    """view of a Ctx that records only the obligations whose key starts with one of `prefixes` (a property module takes the
+    clauses of a shared rule that are necessary for ITS property and leaves the others to the properties they belong to)"""
+
+    def __init__(self, ctx, prefixes):
+        self._c = ctx
+        self._p = tuple(prefixes)
+
+    def __getattr__(self, n):
+        return getattr(self._c, n)
+
+    def ok(self, rule, key, *a, **k):
+        if str(key).startswith(self._p):
+            return self._c.ok(rule, key, *a, **k)
+
+    def fail(self, rule, key, *a, **k):
+        if str(key).startswith(self._p):
+            return self._c.fail(rule, key, *a, **k)
+
+    def floor(self, rule, name, n, minimum, where="-"):
+        return self._c.floor(rule if ("floor:" + name).startswith(self._p) else None, name, n, minimum, where)
+
+    def require(self, rule, name, obj, where="-", what=None):
+        return self._c.require(rule, name, obj, where, what)
